@@ -587,7 +587,12 @@ fn hook_weak_cas_fails(_loc: &'static Location<'static>) -> bool {
 
 fn hook_probe(name: &'static str) {
     with_ctx(|ctx| {
-        *ctx.probes.entry(name).or_insert(0) += 1;
+        let n = ctx.probes.entry(name).or_insert(0);
+        *n += 1;
+        if ctx.trace_on && *n <= 3 && ctx.trace.len() < 4000 {
+            let line = format!("[{:>5}|t{}] probe {} (#{})", ctx.steps, ctx.cur, name, *n);
+            ctx.trace.push(line);
+        }
         if name == "streams_manager.wake_stream.retried_under_lock" {
             let t = ctx.cur;
             ctx.task_wake_misses[t] += 1;
